@@ -196,6 +196,9 @@ class PipeCase:
         for rel, text in self.files.items():
             p = os.path.join(self.workdir, rel)
             os.makedirs(os.path.dirname(p), exist_ok=True)
+            if text.startswith('SYMLINK:'):
+                os.symlink(text[len('SYMLINK:'):], p)          # a second name for a directory or file of the case
+                continue
             with builtins.open(p, 'w') as f:
                 f.write(text)
         with builtins.open(os.path.join(self.workdir, 'isa.yaml'), 'w') as f:
@@ -290,6 +293,10 @@ class PipeCase:
         for rel, text in self.files.items():
             p = os.path.join(dest, rel)
             os.makedirs(os.path.dirname(p), exist_ok=True)
+            if text.startswith('SYMLINK:'):
+                if not os.path.lexists(p):
+                    os.symlink(text[len('SYMLINK:'):], p)
+                continue
             with builtins.open(p, 'w') as f:
                 f.write(text)
         with builtins.open(os.path.join(dest, 'isa.yaml'), 'w') as f:
